@@ -106,7 +106,69 @@ def rule_elig(ctx) -> None:
                     return
             cands.append(e)
 
+        def draws_from_queue(hq: str, depth=0) -> Optional[str]:
+            """a helper all of whose returns are '' / an element of <param>["queue"] (directly, through a loop variable, or through
+            another such helper applied to the same parameter): the name of that parameter"""
+            h = ctx.prog.funcs.get(hq)
+            if h is None or depth > 2 or not h.params:
+                return None
+            P = h.params[0]
+            hrd = ctx.rd(h)
+            hcfg = ctx.cfg(h)
+            okh = True
+            n_ret = 0
+            for hn in hcfg.nodes:
+                if hn.kind != "stmt" or not isinstance(hn.ast, ast.Return) or hn.ast.value is None:
+                    continue
+                n_ret += 1
+                vals = [hn.ast.value]
+                while vals:
+                    v = vals.pop()
+                    if isinstance(v, ast.IfExp):
+                        vals += [v.body, v.orelse]
+                    elif isinstance(v, ast.BoolOp):
+                        vals += list(v.values)
+                    elif isinstance(v, ast.Constant) and v.value == "":
+                        pass
+                    elif isinstance(v, ast.Subscript) and src(v.value).replace("'", '"') == f'{P}["queue"]':
+                        pass
+                    elif isinstance(v, ast.Name):
+                        ds = [d for d in hrd.reaching(v.id, hn) if d.kind != "mutate"]
+                        for d in ds:
+                            if d.kind == "for" and d.value is not None and src(d.value).replace("'", '"') == f'{P}["queue"]':
+                                continue
+                            if d.value is not None and isinstance(d.value, ast.Constant) and d.value.value is None:
+                                continue
+                            if d.value is not None and isinstance(d.value, ast.Name):
+                                vals.append(d.value)
+                                continue
+                            okh = False
+                    elif isinstance(v, ast.Call):
+                        rr = ctx.prog.callee(h, v)
+                        if not (rr and v.args and isinstance(v.args[0], ast.Name) and v.args[0].id == P and draws_from_queue(rr[1], depth + 1)):
+                            okh = False
+                    else:
+                        okh = False
+            return P if okh and n_ret else None
+
+        def through_helper(e: ast.AST, at) -> Optional[ast.AST]:
+            if not (isinstance(e, ast.Call) and e.args and isinstance(e.args[0], ast.Name)):
+                return None
+            rr = ctx.prog.callee(fn, e)
+            if not rr or draws_from_queue(rr[1]) is None:
+                return None
+            a0 = e.args[0].id
+            if a0 in fn.params:
+                return ast.Subscript(value=ast.Name(id=qname, ctx=ast.Load()), slice=ast.Constant(value="*"), ctx=ast.Load())
+            ds = [d for d in rd.reaching(a0, at) if d.kind == "assign" and isinstance(d.value, ast.Dict)]
+            if len(ds) == 1:
+                for k0, v0 in zip(ds[0].value.keys, ds[0].value.values):
+                    if k0 is not None and const_str(k0) == "queue":
+                        return ast.Subscript(value=v0, slice=ast.Constant(value="*"), ctx=ast.Load())
+            return None
+
         expand(agent, r)
+        cands = [through_helper(c, r) or c for c in cands]
         ok = True
         why = []
         for c in cands:
